@@ -38,6 +38,8 @@ var c17Users = []seedUser{
 	{Name: "bob", PW: "zq9#Lm2$vX7@pR4!kD", Admin: false, PID: 1},
 	// a long, distinctive name: a password built from it is weak for this user and strong for everybody else
 	{Name: "zaphod.beeblebrox", PW: "b", Admin: false, PID: 1},
+	// a mail-address name: every part of it is this user's own name
+	{Name: "trillian.mcmillan@heartofgold.example", PW: "c", Admin: false, PID: 1},
 }
 
 func genPolicyPW(t *rapid.T, user string) (string, string) {
@@ -50,7 +52,8 @@ func genPolicyPW(t *rapid.T, user string) (string, string) {
 	case "date":
 		return rapid.SampledFrom([]string{"1984", "01011990", "2020-12-31", "31.12.1999", "19991231"}).Draw(t, "w"), cls
 	case "username":
-		return rapid.SampledFrom([]string{user, user + "1", "whawty", "whawty123", strings.ToUpper(user), user + user, user + "-42", "zaphod.beeblebrox-42", "zaphod.beeblebrox"}).Draw(t, "w"), cls
+		return rapid.SampledFrom([]string{user, user + "1", "whawty", "whawty123", strings.ToUpper(user), user + user, user + "-42", "zaphod.beeblebrox-42", "zaphod.beeblebrox",
+			user[strings.Index(user, "@")+1:] + "-x", user[strings.Index(user, "@")+1:], "heartofgold.example", "trillian.mcmillan@heartofgold.example"}).Draw(t, "w"), cls
 	case "l33t":
 		// (the last ones spell several dictionary words with nine and more different substitution characters)
 		return rapid.SampledFrom([]string{"p@ssw0rd", "wh4wty", "P4$$w0rd!", "l3tm31n", "dr4g0n", "1l0v3y0u!+p@$$w0rd4+5h4d0w", "p@$$w0rd+5h4d0w+1l0v3y0u!",
@@ -96,7 +99,7 @@ func genC17(t *rapid.T) c17Case {
 	}
 	for i, n := 0, rapid.IntRange(1, 10).Draw(t, "nsteps"); i < n; i++ {
 		s := c17Step{Path: rapid.SampledFrom([]string{"store-add", "store-update", "api-add", "api-update-admin", "api-update-own", "api-update-oldpw", "store-init"}).Draw(t, "path"),
-			Target: rapid.SampledFrom([]string{"root", "alice", "bob", "carol", "dave", "zaphod.beeblebrox", "zaphod.beeblebrox"}).Draw(t, "target"), Admin: rapid.Bool().Draw(t, "admin")}
+			Target: rapid.SampledFrom([]string{"root", "alice", "bob", "carol", "dave", "zaphod.beeblebrox", "zaphod.beeblebrox", "trillian.mcmillan@heartofgold.example", "trillian.mcmillan@heartofgold.example", "ford@betelgeuse-five.example"}).Draw(t, "target"), Admin: rapid.Bool().Draw(t, "admin")}
 		s.PW, _ = genPolicyPW(t, s.Target)
 		if i > 0 && rapid.IntRange(0, 2).Draw(t, "samepw") == 0 && c.Steps[i-1].PW != "" && c.Steps[i-1].Target != s.Target {
 			// the password of the previous request, now for another user: the verdict depends on the user name too
@@ -146,7 +149,7 @@ func runC17(c c17Case) string {
 		return r.Session
 	}
 	adminName := func() string {
-		for _, n := range []string{"root", "alice", "bob", "carol", "dave", "zaphod.beeblebrox"} {
+		for _, n := range []string{"root", "alice", "bob", "carol", "dave", "zaphod.beeblebrox", "trillian.mcmillan@heartofgold.example", "ford@betelgeuse-five.example"} {
 			if u, ok := m[n]; ok && u.admin {
 				return n
 			}
